@@ -296,6 +296,7 @@ def _content(mod, bt, v, ch):
                 if ch.pick(2, 'default') == 0:
                     continue
                 ch.features.add('default_present')
+                ch.features.add('default_present:' + mod.resolve(m.type).kind)
             parts.append((T.min_tag(mod, m.type, tg) if k == 'SET' else None, encode(mod, m.type, mv, ch, tg)))
         # members absent from v that have a DEFAULT: optionally materialise explicitly
         if k == 'SET':
